@@ -79,6 +79,10 @@ type mxCase struct {
 	// Encoder_encode ("L".."H" typed level, "sL".."sH" the string spelling): a map prepared for the
 	// writer and passed on. The level ARGUMENT decides; the matrix is the argument's symbol.
 	ECHint string `json:",omitempty"`
+	// GS1, when not empty, puts a GS1_FORMAT entry into the hints map: "true" / "false" the bool,
+	// "strue" / "sfalse" the string spelling. With a true value the FNC1-in-first-position
+	// indicator 0101 precedes the (first) mode indicator, after the ECI header if there is one.
+	GS1 string `json:",omitempty"`
 }
 
 // alphanumeric character set in value order, written from table 5 of the standard
@@ -445,6 +449,16 @@ func hintsFor(c mxCase, fam int) map[gozxing.EncodeHintType]interface{} {
 	case famKanji:
 		h[gozxing.EncodeHintType_CHARACTER_SET] = "Shift_JIS"
 	}
+	switch c.GS1 {
+	case "true":
+		h[gozxing.EncodeHintType_GS1_FORMAT] = true
+	case "false":
+		h[gozxing.EncodeHintType_GS1_FORMAT] = false
+	case "strue":
+		h[gozxing.EncodeHintType_GS1_FORMAT] = "true"
+	case "sfalse":
+		h[gozxing.EncodeHintType_GS1_FORMAT] = "false"
+	}
 	if c.ECHint != "" {
 		name := c.ECHint[len(c.ECHint)-1:]
 		if li := levelIndex(name); li >= 0 {
@@ -472,6 +486,9 @@ func hashMatrix(m *encoder.ByteMatrix) uint64 {
 }
 
 func caseID(c mxCase) string {
+	if c.GS1 != "" {
+		return fmt.Sprintf("%s v%d-%s m%d %s%s len%d pat%d gs1=%s", c.Kind, c.V, c.Level, c.Mask, c.Family, c.Vec, c.Len, c.Pat, c.GS1)
+	}
 	if c.ECHint != "" {
 		return fmt.Sprintf("%s v%d-%s m%d %s%s len%d pat%d hint-ec=%s", c.Kind, c.V, c.Level, c.Mask, c.Family, c.Vec, c.Len, c.Pat, c.ECHint)
 	}
@@ -526,6 +543,11 @@ func runMatrixCase(l *mc.Local, c mxCase) (class, what string) {
 		return "encode/version-hint", fmt.Sprintf("%s: requested version %d, QRCode reports %v", caseID(c), c.V, code.GetVersion())
 	}
 	cands := refSegments(fam, code.GetMode(), payload)
+	if c.GS1 == "true" || c.GS1 == "strue" {
+		for _, segs := range cands {
+			segs[0].FNC1 = true
+		}
+	}
 	if cands == nil {
 		return "encode/mode", fmt.Sprintf("%s: library reports mode %s which cannot represent the payload", caseID(c), libModeName(code.GetMode()))
 	}
